@@ -324,15 +324,15 @@ func (rs *rowStore) processInserts(offsetsBySource common.OffsetsBySource, stop 
 			rs.fields = fields
 
 			// force flush before processing any more inserts
-			offsetsBySource = ms.offsetsBySource
+			emptyMS := ms
 			ms = flush(false)
 
 			if ms == nil {
-				// nothing flushed, create a new memstore to pick up new fields
-				ms = rs.newMemStore(offsetsBySource)
-				rs.mx.Lock()
-				rs.memStore = ms
-				rs.mx.Unlock()
+				// nothing in memory to flush, but still rewrite the file store with
+				// the new fields so that columns of removed fields don't linger on
+				// disk (and reappear if a field of the same name is added later).
+				// This also installs a new memstore that picks up the new fields.
+				ms, _ = rs.processFlush(emptyMS, false)
 			}
 		}
 	}
